@@ -11,7 +11,8 @@
                   "^[A-z]:" (the range A-z also holds [ \ ] ^ _ `) or no ":" = file; else the scheme regexp
                   [A-Za-z][A-Za-z0-9+.-]+ must match ("invalid uri") and a provider must exist ("unsupported scheme")
      Retrieve     Resolve, one iteration of the loop over the locations: Provider.Retrieve (fileprovider: os.ReadFile;
-                  envprovider: name regexp, LookupEnv, default only if NOT set; yamlprovider: the bytes) ->
+                  envprovider: name regexp, LookupEnv, default only if NOT set; yamlprovider: the bytes;
+                  configurablehttpprovider: GET, status 200 or error, the body) ->
                   NewRetrievedFromYAML -> AsConf (nil = empty Conf, not a map = error) -> retMap.Merge
      Finish       Resolve, second half: every flat key of the merged map is expanded and the result rebuilt with
                   NewFromStringMap (koanf: flatten / unflatten on "::")
@@ -87,6 +88,7 @@ Fail == [c |-> "fail", n |-> "", e |-> <<>>]
 RetrieveLoc(l) ==
   CASE l.scheme = "file" -> IF l.x \in DOMAIN Files THEN DocTable[Files[l.x]] ELSE Fail
     [] l.scheme = "yaml" -> YamlContent(l.x)
+    [] l.scheme = "http" -> IF l.x \in DOMAIN Http /\ Http[l.x].status = 200 THEN DocTable[Http[l.x].body] ELSE Fail
     [] l.scheme = "env"  -> LET j  == IndexOf(l.x, ":-")
                                 nm == IF j = 0 THEN l.x ELSE Before(l.x, j)
                             IN IF ~ValidEnvName(nm) THEN Fail
